@@ -3,6 +3,14 @@
 import json, os, subprocess
 V = os.path.dirname(os.path.dirname(os.path.abspath(__file__)))
 
+# strata added in later sessions (appended to the texts below)
+ADDED = {
+ "C02": "stale-files histories (the same paths / entry name compiled first with other contents), other-option prefixes, @import / meta.load-css projects, generated programs as inputs",
+ "C03": "binary operations are printed relying on operator precedence and left associativity (not only fully parenthesised); @each destructuring over lists of lists, self-recursive functions, `!default !global`",
+ "C07": "every value is also printed through interpolation, inspect(), string concatenation, inside lists and maps and with a unit (probe-observed text vs the correctly rounded decimal)",
+ "C14": "a share of the calls passes trailing arguments by their documented parameter names",
+}
+
 CHECKS = {
  "C01": dict(engine="vw+vp+asan",
    text="totality oracle (exactly one of Ok / structured Err is returned within logical-step budgets; no panic, no process death, parse-progress invariant holds, the Err can be inspected and rendered) over ~1M hostile executions per quick run: golden corpus x 3 syntaxes, near-miss mutations, token soup, ill-typed calls of every builtin, deep shapes, hex escapes of every boundary code point in every lexical context, indentation soup for the indented syntax, invalid/unreadable bytes for entry and imported files, release-like and debug-like profiles; thorough adds the same workload under AddressSanitizer",
@@ -107,6 +115,9 @@ def main():
             "level_note": c["note"],
             "technique": c["technique"],
         })
+    for c in checks:
+        if c["property_id"] in ADDED:
+            c["level_claimed"]["text"] += "; " + ADDED[c["property_id"]]
     m = {
         "version": 1,
         "setup_cmd": "./check --setup",
